@@ -37,3 +37,19 @@ Definition show_res (r : res) : string :=
   | RStuck w => "stuck:" ++ hex_of_string w
   | RFuel => "fuel"
   end.
+
+(* outcomes of the concurrent explorer *)
+From GV Require Import Lang.GlConc.
+Definition show_outcome1 (o : outcome) : string :=
+  match o with
+  | ODone v => "done:" ++ show_val v
+  | ODeadlock => "deadlock"
+  | OStuck w => "stuck:" ++ hex_of_string w
+  | OFuelOut => "fuel"
+  end.
+Fixpoint show_outcomes (l : list outcome) : string :=
+  match l with
+  | [] => ""
+  | [o] => show_outcome1 o
+  | o :: t => show_outcome1 o ++ "|" ++ show_outcomes t
+  end.
